@@ -98,6 +98,14 @@ NkOK(nodes, spec) ==
    /\ spec.mode \in {"dk", "length"} => \A i \in 1..Len(nodes) : StartsSegment(nodes, i) => ~RoundTie(Dist2(nodes[i], nodes[i + 1], spec.A), spec.inv)
    /\ \A i \in 1..Len(nodes) : StartsSegment(nodes, i) => NkDecl(nodes, spec, i) >= 2
 
+(* dk / length: the statement of C29 asks for uniform sampling, not for one rounding rule.  Any nk >= 2 whose spacing
+   dist/(nk-1) differs from dk by at most dk is a sampling "with dk" (the code's round(dist/dk)+1 is one of them, ceil
+   is another): |dist/(nk-1) - dk| <= dk  <=>  dist <= 2 dk (nk-1)  <=>  s2 p^2 <= 4 q^2 (nk-1)^2   (1/dk = p/q) *)
+DkSpacingOK(s2, inv, nk) == nk >= 2 /\ s2 * Sq(inv[1]) <= 4 * Sq(inv[2]) * Sq(nk - 1)
+(* the same points with the same multiplicities, in any order *)
+SameBag(s, t) == /\ Len(s) = Len(t)
+                 /\ \A k \in 1..Len(s) : Cardinality({i \in 1..Len(s) : s[i] = s[k]}) = Cardinality({i \in 1..Len(t) : t[i] = s[k]})
+
 (* ---- what C29 demands of a path P built from (nodes, labels, spec); stated with explicit positions ---- *)
 (* nk of the segment starting at node position i (0 where no segment starts); evaluated once *)
 NkSeq(nodes, spec) == TLCEval([i \in 1..Len(nodes) |-> IF StartsSegment(nodes, i) THEN NkDecl(nodes, spec, i) ELSE 0])
@@ -150,14 +158,17 @@ RECURSIVE RefLoop(_, _, _, _)
 RefLoop(r, P, i, f) == IF i >= Len(P.K) - 1 THEN r ELSE RefLoop(TLCEval(RefStep(r, P, i, f)), P, i + 1, f)    \* TLCEval: evaluate eagerly
 Refined(P, f) == TLCEval(RefAppend(RefLoop(RefInit, P, 0, f), P, Len(P.K) - 1))
 
-(* domain: the labels dict is listed by increasing index, breaks increasing, all indices inside the path *)
+(* a break is the index of the point AFTER which the path jumps: a "break" at the last point separates nothing (and
+   getKline, which indexes the steps with the breaks, has no step there): such paths are outside the domain *)
+KlineOK(P) == \A k \in 1..Len(P.breaks) : P.breaks[k] < Len(P.K) - 1
+(* domain: the labels dict is listed by increasing index, breaks increasing, all indices inside the path, no break at
+   the last point *)
 PathOK(P) == /\ Len(P.K) >= 1
              /\ \A k \in 1..Len(P.labels) : P.labels[k][1] \in 0..(Len(P.K) - 1)
              /\ \A k \in 1..(Len(P.labels) - 1) : P.labels[k][1] < P.labels[k + 1][1]
              /\ \A k \in 1..Len(P.breaks) : P.breaks[k] \in 0..(Len(P.K) - 1)
              /\ \A k \in 1..(Len(P.breaks) - 1) : P.breaks[k] < P.breaks[k + 1]
-(* getKline indexes the steps with the breaks: a break at the last point is outside its domain *)
-KlineOK(P) == \A k \in 1..Len(P.breaks) : P.breaks[k] < Len(P.K) - 1
+             /\ KlineOK(P)
 
 (* where original point i goes: every non-break step before it is divided into f *)
 RefIdx(P, f, i) == f * i - (f - 1) * Cardinality({b \in BreakSet(P) : b < i})
